@@ -1,5 +1,5 @@
 (* C16 — disabling the regex feature removes only regex matching. *)
-From ASModel Require Import Base Tokens Report Ast IR Expand Features.
+From ASModel Require Import Base Tokens Report Ast IR Expand Features Parser FrontEnd.
 From ASProofs Require Import FeaturesP.
 From ASGen Require Import RepoFacts.
 
@@ -65,3 +65,18 @@ Theorem c16_wiring_matters :
   dispatch_eq (macro_regex w DefaultOff) (Some "~"%char) = DErr.
 Proof. exact wiring_matters. Qed.
 Print Assumptions c16_wiring_matters.
+
+(* the same about the front-end model itself: with the wiring found in /repo, the macro is the same function of
+   the invocation's tokens in both configurations a dependent crate can select *)
+Theorem c16_same_macro : forall j pe pp pc start ts,
+  front_end_from (macro_regex repo_wiring DefaultOff) j pe pp pc start ts =
+  front_end_from (macro_regex repo_wiring DefaultOn) j pe pp pc start ts.
+Proof. exact same_macro_both_configs. Qed.
+Print Assumptions c16_same_macro.
+
+(* and were the macro crate ever built without its feature, `=~` would be a parse error on the `=`, not another meaning *)
+Theorem c16_tilde_is_an_error_without_the_macro_feature : forall j pe pp pc f sc st jt sp r,
+  toks st = TTPunct "=" jt sp :: r -> peek_punct "=" r = false ->
+  p_pattern false j pe pp pc (S f) sc st = PErr sp (ctr st).
+Proof. exact tilde_is_an_error_without_the_macro_feature. Qed.
+Print Assumptions c16_tilde_is_an_error_without_the_macro_feature.
